@@ -119,6 +119,17 @@ Proof.
   - split; [left; exact H2|]. rewrite H2. auto.
 Qed.
 
+(* the other two answers, for every Manager state and every message: Ok(None) (a part was stored)
+   leaves the Storage - and with it the acknowledged tick - untouched; Ok(Some(snap)) sets the
+   acknowledged tick to the tick under which `snap` is now the newest stored snapshot *)
+Theorem C13_ok_answers : forall sz m msg m' o ws,
+  manager_feed sz m msg = (m', (Ok o, ws)) ->
+  match o with
+  | None => m_store m' = m_store m
+  | Some X => exists t rest, manager_ack m' = Some t /\ st_snaps (m_store m') = (t, X) :: rest
+  end.
+Proof. exact feed_ok_ack. Qed.
+
 (* NOT SILENTLY, AND NOT NEEDLESSLY.  In every reachable state, whatever a delivered message of the
    sender is answered with is an accepted snapshot, "part stored", or one of five refusals: an old
    tick, a duplicate part, a transfer of more than 32 parts, Storage::OldDelta, or a base the Manager
@@ -132,6 +143,27 @@ Proof.
   intros sz t0 tr s k s' tick r ws ack Hf Hr Hs.
   destruct (lrun_linv sz tr (link_init t0) (linv_init sz t0) Hf) as (s1 & Hr' & I).
   rewrite Hr in Hr'. injection Hr' as <-. apply (deliver_refusals sz s k s' tick r ws ack I Hs).
+Qed.
+
+(* PROGRESS (beyond the property; it shows that agreement is not kept by refusing everything, and
+   that the link recovers).  In every reachable state: a SendTick whose delta is taken against the
+   empty snapshot - nothing acknowledged yet, or the acknowledgement was cleared by an error and the
+   client's -1 has reached the sender, or the acknowledged snapshot was unknown - and fits one message
+   is accepted by the Manager as soon as that message is delivered, whatever was lost, duplicated or
+   reordered before; the acknowledged tick becomes its tick. *)
+Theorem C13_full_snapshot_accepted : forall sz t0 tr s s1 x,
+  follows_api sz (link_init t0) tr = true -> lrun sz (link_init t0) tr = Ok s ->
+  api_ok sz s SendTick = true -> lstep sz s SendTick = Ok (s1, OSent x) ->
+  sn_base x = -1 -> (length (sn_bytes x) <= 900)%nat ->
+  exists s2 X ws,
+    lstep sz s1 (Deliver (length (l_chan s))) = Ok (s2, ODeliver (sn_tick x) (Ok (Some X), ws) (Some (sn_tick x)))
+    /\ (forall E, @snap_items E X = @snap_items E (sn_snap x)).
+Proof.
+  intros sz t0 tr s s1 x Hf Hr Hapi Hs Hb Hl.
+  destruct (lrun_linv sz tr (link_init t0) (linv_init sz t0) Hf) as (s' & Hr' & I).
+  rewrite Hr in Hr'. injection Hr' as <-.
+  destruct (fresh_single_accepted sz s s1 x I Hapi Hs Hb Hl) as (s2 & X & ws & E & HL).
+  exists s2, X, ws. split; [exact E|]. apply (like_same _ _ HL).
 Qed.
 
 (* The stronger clause of DESIGN.md ("after an error the acknowledged tick is never the tick of the
@@ -231,7 +263,9 @@ Print Assumptions C13_agree.
 Print Assumptions C13_stored_agree.
 Print Assumptions C13_ghosts.
 Print Assumptions C13_error_no_advance.
+Print Assumptions C13_ok_answers.
 Print Assumptions C13_genuine_refusals.
+Print Assumptions C13_full_snapshot_accepted.
 Print Assumptions C13_error_never_own_tick_refuted.
 Print Assumptions C13_no_panic.
 Print Assumptions C13_manager_total.
